@@ -127,6 +127,16 @@ add("C08", "exploration",
     "Whole-section-unit files, #define outside conditionals; known findings F08* (pragmas after a started moleculetype are not evaluated) tolerated by predicate.",
     "§4 C08")
 
-for _p in ["C06", "C07", "C09", "C12",
+add("C09", "exploration",
+    "bounded-exhaustive enumeration of type tables / wildcard masks / listing directions against a grompp-style reference lookup",
+    "Dihedral type tables built from every subset of <=2 (3) of the 16 wildcard masks in both writing directions with 1-3 terms, "
+    "both listing directions of the interaction and 1-3 molecule instances; bonds/angles/constraints with exact/reversed/absent "
+    "entries; #define macros; OPLS bond_type indirection; every subset of explicit nonbond_params x gen-pairs x comb-rule. The "
+    "reference selects the candidates by brute force and demands a minimally wildcarded one, identical terms in every instance, "
+    "explicit pair parameters winning, and sigma/epsilon reproducing C6/C12.",
+    "Combination-rule values themselves are not judged; ties between equally specific entries may go either way.",
+    "§4 C09")
+
+for _p in ["C06", "C07", "C12",
            "C15", "C18", "C20"]:
     NOT_YET[_p] = "check under construction in this session (bounded exhaustive exploration applies; see DESIGN.md)"
